@@ -36,12 +36,16 @@ def hSample : Core3.Func :=
             ⟨none, 24, [.flags [1], .tyval (.int 32) (.loc (.id 1)), .tyval (.ptr (.int 32) 0) (.glob [99]), .okw none, .align none], .none, []⟩,
             ⟨some (.id 3), 75, [.ty (.int 32), .val (.glob [102]), .tyvals [(.int 32, .loc (.id 1)), (.int 32, .const (.int 7))]], .none, []⟩,
             ⟨none, 74, [.val (.glob [101, 120, 116]), .tyvals [(.int 32, .loc (.id 3))]], .none, []⟩],
-      ⟨none, 26, [.retv (some (.int 32, .loc (.id 1)))], .none, [([120], 0)]⟩⟩], [], {}, []⟩
+      ⟨none, 26, [.retv (some (.int 32, .loc (.id 1)))], .none, [([120], 0)]⟩⟩], [], {}, [], false⟩
 
 /-- `declare extern_weak default void @ext(i32 zeroext %0) local_unnamed_addr readnone partition "p"` -/
-def extSample : Core3.Func := ⟨.void, [101, 120, 116], [(.int 32, .id 0)], [], [9, 13], { unnamed := some 1, attrs := [37], partition := [112] }, [[16]]⟩
+def extSample : Core3.Func := ⟨.void, [101, 120, 116], [(.int 32, .id 0)], [], [9, 13], { unnamed := some 1, attrs := [37], partition := [112] }, [[16]], false⟩
 
-def wholeSample : Module := ⟨sample.typedefs, sample.globals ++ [⟨[99], false, .int 32, .int 5, [3, 9, 12, 14, 17, 20, 22]⟩], [core3Sample, hSample, extSample], metaSample⟩
+/-- a VARIADIC declaration: `declare i32 @vf(i8* nocapture %0, ...)`, and one without parameters: `declare void @v0(...)` -/
+def varSample : Core3.Func := ⟨.int 32, [118, 102], [(.ptr (.int 8) 0, .id 0)], [], [], {}, [[4]], true⟩
+def var0Sample : Core3.Func := ⟨.void, [118, 48], [], [], [], {}, [], true⟩
+
+def wholeSample : Module := ⟨sample.typedefs, sample.globals ++ [⟨[99], false, .int 32, .int 5, [3, 9, 12, 14, 17, 20, 22]⟩], [core3Sample, hSample, extSample, varSample, var0Sample], metaSample⟩
 
 example : Core2.WF ⟨wholeSample.typedefs, wholeSample.globals⟩ := by
   refine ⟨?_, ?_, ?_, by decide, by decide, by decide⟩
@@ -54,9 +58,9 @@ example : Core2.WF ⟨wholeSample.typedefs, wholeSample.globals⟩ := by
 example : Core2.sortDefs wholeSample.typedefs = wholeSample.typedefs := by
   simp [wholeSample, sample, Core2.sortDefs, Natsort.sort, Natsort.insert]
 example : ∀ f ∈ wholeSample.funcs, Core3.wfIn (genvOf wholeSample.globals wholeSample.funcs) f = true := by
-  intro f hf; simp [wholeSample] at hf; rcases hf with rfl | rfl | rfl <;> decide +kernel
+  intro f hf; simp [wholeSample] at hf; rcases hf with rfl | rfl | rfl | rfl | rfl <;> decide +kernel
 example : ∀ f ∈ wholeSample.funcs, Core3.mdWF IntLit.hexChoice f = true := by
-  intro f hf; simp [wholeSample] at hf; rcases hf with rfl | rfl | rfl <;> decide +kernel
+  intro f hf; simp [wholeSample] at hf; rcases hf with rfl | rfl | rfl | rfl | rfl <;> decide +kernel
 example : Meta.wf wholeSample.md = true := by decide +kernel
 example : crossOK wholeSample = true := by decide +kernel
 /-- (`@c = internal dso_local hidden dllexport thread_local(initialexec) unnamed_addr externally_initialized global i32 5`) -/
@@ -78,7 +82,7 @@ def extMdSample : Module :=
   ⟨[], [],
    [⟨.void, [115], [(.int 32, .id 0)],
      [⟨.id 1, [], ⟨none, 82, [.tyval (.int 32) (.loc (.id 0)), .lab (.id 2)], .cases [(.int 32, .int 1, .id 2)], [([120], 0)]⟩⟩,
-      ⟨.id 2, [], ⟨none, 83, [.val (.glob [115]), .tyvals [(.int 32, .loc (.id 0))]], .dests (.id 2) (.id 2), [([100, 98, 103], 0), ([121], 0)]⟩⟩], [], {}, [[]]⟩],
+      ⟨.id 2, [], ⟨none, 83, [.val (.glob [115]), .tyvals [(.int 32, .loc (.id 0))]], .dests (.id 2) (.id 2), [([100, 98, 103], 0), ([121], 0)]⟩⟩], [], {}, [[]], false⟩],
    ⟨[], [⟨0, false, .nil⟩]⟩⟩
 
 /-- non-vacuity of the round trip with attachments on continuation lines: the printed text ends its switch with `<tab>], !x !0` and its invoke with
